@@ -435,6 +435,52 @@ func c32Check(c *vkit.Check, cs c32Case, b *c32Built) { //nolint:gocognit,cyclop
 		if _, _, ferr := r.ParseNextFrame(); !errors.Is(ferr, io.EOF) {
 			bad("reader|trailing|"+c32Class(cs), fmt.Sprintf("IVFReader after the last frame: %v (want io.EOF)", ferr))
 		}
+		// 3. the same file read while it is still growing: the reader first sees a prefix that ends inside a
+		// frame (inside its 12-byte header, right behind it, inside its data, one byte before its end), gets an
+		// error there, and is handed the rest through ResetReader (the documented way to follow a live file):
+		// the frames read before and after the interruption are still exactly the written ones
+		off := 32
+		for i := range b.want {
+			n := len(b.want[i])
+			for _, cut := range []int{off + 1, off + 11, off + 12, off + 13, off + 12 + n/2, off + 12 + n - 1} {
+				if cut <= off || cut >= off+12+n || cut > len(data) {
+					continue
+				}
+				fr, _, ferr := ivfreader.NewWith(bytes.NewReader(data[:cut]))
+				if ferr != nil {
+					bad("reader|follow-open|"+c32Class(cs), "ivfreader.NewWith on a prefix with a complete file header: "+ferr.Error())
+
+					return
+				}
+				var got [][]byte
+				resumed := false
+				for len(got) <= len(b.want) {
+					payload, fh, perr := fr.ParseNextFrame()
+					if perr == nil && fh != nil {
+						got = append(got, payload)
+
+						continue
+					}
+					if resumed {
+						break
+					}
+					resumed = true
+					fr.ResetReader(func(bytesRead int64) io.Reader { return bytes.NewReader(data[bytesRead:]) })
+				}
+				same := len(got) == len(b.want)
+				for k := 0; same && k < len(got); k++ {
+					same = bytes.Equal(got[k], b.want[k])
+				}
+				if !same {
+					bad("reader|follow|interrupted-in="+map[bool]string{true: "frame-header", false: "frame-data"}[cut < off+12]+"|"+c32Class(cs),
+						fmt.Sprintf("reading resumed with ResetReader after the input first ended at offset %d (frame %d starts at %d, %d bytes): %d frames read, %d written, or their bytes differ",
+							cut, i, off, n, len(got), len(b.want)))
+
+					return
+				}
+			}
+			off += 12 + n
+		}
 	})
 	if failed {
 		return
